@@ -71,7 +71,9 @@ func VerifSwissquoteRow() {
 	p := parser{registry: reg, reader: csv.NewReader(strings.NewReader(zzHeader + rows)), builder: journal.New(), account: acc,
 		dividend: reg.Accounts().MustGet("Income:Dividends"), tax: reg.Accounts().MustGet("Expenses:Tax"), fee: reg.Accounts().MustGet("Expenses:Fees"),
 		interest: reg.Accounts().MustGet("Income:Interest"), trading: reg.Accounts().MustGet("Equity:Trading")}
-	err := p.parse()
+	var err error
+	stdout := v.CaptureStdout(func() { err = p.parse() })
+	v.Assert(stdout == "", "importer-writes-nothing-but-the-journal")
 	v.Assert(err == nil, "well-formed-row-is-imported")
 	if err != nil {
 		return
